@@ -6,7 +6,10 @@ check dominance and mismatch->raise, R03.3 first-write vs append state, R03.4
 in-place SIZE update, R03.5 append position, R03.6 overwrite; R03.1e the existence
 test of the append fallback looks at the path that is opened, R03.2f a text append is
 accepted only after kind and item size of every field compared equal, R03.8 the
-records Records::Write emits and the rows Python counts are the same measure of the chunk.
+records Records::Write emits and the rows Python counts are the same measure of the chunk;
+R03.6 header-option-reaches-SFile.write: the user header reaches SFile.write on every path (append or not); R03.7
+text-chunk-native: a text handle in any state left by Recfile.open (created or reopened) converts the chunk to native
+byte order before Records::Write.
 
 The rules are stated over *paths* (python: a small symbolic executor that follows
 calls into helpers of the same class / module and substitutes temporaries; C++:
@@ -34,7 +37,10 @@ MANIFEST = dict(
          "of SFile.write and every mismatch outcome of a dtype comparison on both the binary and the text arm ends in a raise; (3) header text is "
          "written only on the first write and the three row-count copies (file SIZE line, handle, header dict) are updated "
          "together; (4) the Python SIZE format and the C++ in-place updater agree in prefix, width (>=20) and conversion; "
-         "(5) seek-to-end dominates every output call reachable from Records::Write; (6) append=False selects mode 'w'.",
+         "(5) seek-to-end dominates every output call reachable from Records::Write; (6) append=False selects mode 'w'; "
+         "(7) on every path of sfile.write the header handed to SFile.write is the caller's header= option; (8) for every state a "
+         "text handle can be in after Recfile.open, every path of Recfile.write converts the chunk to native byte order before "
+         "Records::Write (nothing below Records::Write swaps bytes).",
     note="Not decided: byte-level equality of the concatenation, libc/file-system semantics, numpy dtype comparison "
          "semantics. Trusted: CPython ast, clang 14 AST, networkx dominators, SWIG naming convention, LP64.",
     technique="static analysis: CFG dominance / def-use, path-sensitive symbolic execution with helper inlining over Python ast, "
@@ -47,7 +53,8 @@ BYTE_WRITERS = ("write_header_and_update_offset", "update_row_count", "Write")
 # rules that keep their verdict however the code is laid out (decided by term equality, effect analysis or dominance over
 # resolved calls); every other rule of this check is a template rule (vcheck.core.Check.obt)
 SEMANTIC = ('R03.1a', 'R03.1b', 'R03.1c', 'R03.1e', 'R03.2b', 'R03.2c', 'R03.2d', 'R03.2f', 'R03.3d', 'R03.4c', 'R03.5', 'R03.8',
-            'R03.6::esutil.sfile.write::append=')
+            'R03.6::esutil.sfile.write::append=', 'R03.6::esutil.sfile.write::header-option-reaches-SFile.write',
+            'R03.7::esutil.recfile.Util.Recfile.write::text-chunk-native')
 
 
 def run(chk):
@@ -85,7 +92,7 @@ def run(chk):
     r03_4(chk, repo, cfun, ceff)
     r03_5(chk, cfun, ceff)
     r03_6(chk, repo, sf_write, cfun)
-    r03_7(chk, repo, Rec_write, measures)
+    r03_7(chk, repo, Rec_write, measures, ceff)
     r03_8(chk, cfun, ceff, measures)
 
 
@@ -2206,6 +2213,49 @@ def _is_key_lookup(v, key):
     return False
 
 
+def _is_empty_header(v):
+    """None / {} / dict(): what a caller who gave no header ends up with"""
+    if _is_none(v):
+        return True
+    d = _as_dict_literal(v)
+    return d is not None and not d.keys
+
+
+_VALUE_KEEPING_CALLS = ("dict", "copy", "deepcopy", "OrderedDict")
+
+
+def _header_origin(v, key="header", depth=0):
+    """is the (forward-substituted) expression the caller's `<key>` option?  True: it is the option itself (keys.get('<key>', ..) /
+    keys['<key>'] / a parameter of that name), possibly through a value-keeping wrapper (`x or {}`, `x if x is not None else {}`,
+    dict(x), copy(x), x.copy()); False: it is positively something else (a constant, or an expression in which the option does
+    not occur); None: the option occurs in it but in a form that is not recognised"""
+    if depth > 6:
+        return None
+    if isinstance(v, ast.Subscript) and isinstance(v.slice, ast.Constant) and _as_dict_literal(v.value) is not None:
+        hit = _dict_lookup(_as_dict_literal(v.value), v.slice)
+        if hit is not None:
+            return _header_origin(hit, key, depth + 1)
+    if _is_key_lookup(v, key):
+        return True
+    if isinstance(v, ast.BoolOp) and isinstance(v.op, ast.Or) and all(_is_empty_header(x) for x in v.values[1:]):
+        return _header_origin(v.values[0], key, depth + 1)
+    if isinstance(v, ast.IfExp):
+        arms = [v.body, v.orelse]
+        about_option = any(_is_key_lookup(x, key) for x in ast.walk(v.test))
+        res = [_header_origin(a, key, depth + 1) for a in arms if not (about_option and _is_empty_header(a))]
+        if not res or any(r is False for r in res):
+            return False if res else None
+        return True if all(r is True for r in res) else None
+    if isinstance(v, ast.Call) and not v.keywords:
+        if len(v.args) == 1 and call_name(v) in _VALUE_KEEPING_CALLS:
+            return _header_origin(v.args[0], key, depth + 1)
+        if not v.args and isinstance(v.func, ast.Attribute) and v.func.attr == "copy":
+            return _header_origin(v.func.value, key, depth + 1)
+    if any(_is_key_lookup(x, key) for x in ast.walk(v) if isinstance(x, (ast.Name, ast.Call, ast.Subscript))):
+        return None
+    return False
+
+
 def r03_6(chk, repo, sf_write, cfun):
     """overwrite: append false => literal mode 'w' reaches SFile(...); fopen gets the mode unmodified"""
     try:
@@ -2234,10 +2284,44 @@ def r03_6(chk, repo, sf_write, cfun):
         for w in ws:
             a0 = w["args"][0] if w["args"] else None
             f0 = e["args"][0] if e["args"] else None
+            h0 = w["kw"].get("header", w["args"][1] if len(w["args"]) > 1 else None)
             ok = ok and isinstance(a0, ast.Name) and isinstance(f0, ast.Name) and {a0.id, f0.id} == params \
-                and "header" in w["kw"] and _is_key_lookup(w["kw"]["header"], "header")
+                and h0 is not None and _header_origin(h0) is True
     chk.ob("R03.6", "esutil.sfile.write::forwards-data-and-header", ok, sf_write.where(),
            "sfile.write forwards data and header= to SFile.write (%d SFile(...) path(s), %d write call(s))" % (len(ctor), nwrite))
+    # the user header given at creation is retained: whichever way the function is laid out, on EVERY path that constructs the
+    # SFile (append or not: an append to a missing file is a creation) the header handed to SFile.write is the caller's
+    # header option.  Decided on the forward-substituted argument term of each path, so it keeps its verdict under restructuring.
+    verdict, bad, npaths = True, [], 0
+    for st, e in ctor:
+        ws = [w for w in _calls(st, "write") if isinstance(w["recv"], ast.Call) and call_name(w["recv"]) == "SFile"]
+        for w in ws:
+            npaths += 1
+            if "header" in w["kw"]:
+                h = w["kw"]["header"]
+            elif len(w["args"]) > 1:
+                h = w["args"][1]
+            else:
+                h = None
+            if h is None:
+                cls = None if ("**" in w["kw"] or any(isinstance(a, ast.Starred) for a in w["args"])) else False
+                text = "<no header argument>"
+            else:
+                cls = _header_origin(h)
+                text = norm(h)
+            if cls is True:
+                continue
+            app = _append_truth(st, w["nfacts"])
+            if cls is False and _fact(st, lambda k: k[0] == "truth" and any(t + "(" in k[1] for t in _EXIST_TESTS), w["nfacts"]) is True:
+                cls = None      # dropped only once the file is known to exist (where a header is ignored anyway): not judged
+            bad.append("line %s, append %s: header=%s" % (w["line"], {True: "true", False: "false", None: "either"}[app], text[:60]))
+            verdict = False if (cls is False or verdict is False) else None
+    if not npaths:
+        verdict = None
+    chk.ob("R03.6", "esutil.sfile.write::header-option-reaches-SFile.write", verdict, sf_write.where(),
+           "%son every path of sfile.write (append or not: an append to a missing file creates it) the header handed to SFile.write "
+           "is the caller's header= option (%d path(s))"
+           % ("" if not bad else "user header dropped: " + "; ".join(sorted(set(bad))[:4]) + " -- rule: ", npaths))
     sp = cfun.get("Records::set_fptr") or cfun.get("set_fptr")
     ok = False
     if sp is not None:
@@ -2263,7 +2347,7 @@ def _chunk_len(x, param="data"):
     return isinstance(e, ast.Name) and e.id == param
 
 
-def r03_7(chk, repo, Rec_write, measures):
+def r03_7(chk, repo, Rec_write, measures, ceff=None):
     """Recfile.write: the handle's row count follows every write (several writes on one handle)"""
     try:
         paths = [st for k, _, st in _PX(repo).run(Rec_write, {}) if k == "return"]
@@ -2290,3 +2374,194 @@ def r03_7(chk, repo, Rec_write, measures):
     per = sorted({len(_calls(st, "Write")) for st in paths})
     chk.ob("R03.7", "esutil.recfile.Util.Recfile.write::single-C++-write", per == [1], Rec_write.where(),
            "exactly one Records::Write call per Recfile.write (calls per normal path: %s)" % per)
+    _text_chunk_native(chk, repo, Rec_write, paths, ceff)
+
+
+# -- R03.7 text-chunk-native ------------------------------------------------------------------------------------------------
+_SWAP_PRIMS = ("byteswap", "newbyteorder", "astype")
+_BYTE_ORDER_WORDS = re.compile(r"native|byteorder|endian|swap", re.I)
+
+
+def _native_converters(repo):
+    """names of the package functions that (directly, or through package functions they call by name) reorder the bytes of an
+    array: their body reaches a numpy byteswap / newbyteorder / astype call"""
+    direct, callees = set(), {}
+    for fi in repo.funcs.values():
+        names = set()
+        for x in ast.walk(fi.node):
+            if isinstance(x, ast.Call):
+                nm = call_name(x)
+                if nm:
+                    names.add(nm)
+        callees[fi.name] = callees.get(fi.name, set()) | names
+        if names & set(_SWAP_PRIMS):
+            direct.add(fi.name)
+    conv = set(direct)
+    for _ in range(3):
+        conv |= {nm for nm, cs in callees.items() if cs & conv}
+    return conv
+
+
+_TEXT_ATTR = re.compile(r"^self\.(is_ascii|isascii|is_text|istext|ascii|text)$")
+
+
+def _text_handle_states(repo, Rec_open, where):
+    """abstract states of a handle that was opened as a delimited-text one: the final (attribute values, branch facts) of every
+    returning path of Recfile.open (parameter-less helpers of the class such as close() followed) on which the text flag is true
+    or can be true (then the fact that makes it true is added).  Always ends with one stateless fallback (no attribute known, the
+    flag assumed true) when the paths of open cannot be used.  -> ([_St], did the open paths give the states)"""
+    states, seen = [], set()
+    try:
+        px = _PX(repo, want=lambda f: f.cls is not None and f.cls == Rec_open.cls and len(f.params) == 1, maxdepth=2, budget=60000)
+        finals = [st for k, _, st in px.run(Rec_open, {}) if k == "return"]
+    except (_TooBig, AnalysisError, RecursionError):
+        finals = []
+    for st in finals:
+        attr = next((k for k in sorted(st.heap) if _TEXT_ATTR.match(k)), None)
+        if attr is not None:
+            v = st.heap[attr]
+        elif "self.delim" in st.heap:
+            v = ast.Compare(left=copy.deepcopy(st.heap["self.delim"]), ops=[ast.IsNot()], comparators=[ast.Constant(value=None)])
+        else:
+            continue
+        v = _with_eqs(v, st.facts)
+        d = _decide(v, st.facts)
+        if d is False:
+            continue
+        facts = st.facts if d is True else st.facts + tuple(_implied(v, True, where))
+        sig = (tuple(sorted((k, norm(x)) for k, x in st.heap.items())), d)
+        if sig in seen:
+            continue
+        seen.add(sig)
+        states.append(_St(heap=dict(st.heap), facts=facts))
+    if states:
+        return states, True
+    seed = []
+    for text in ("self.is_ascii",):
+        seed.extend(_implied(ast.parse(text, mode="eval").body, True, where))
+    seed.extend(_implied(ast.parse("self.delim is not None", mode="eval").body, True, where))
+    return [_St(facts=tuple(seed))], False
+
+
+def _refined_facts(facts, known):
+    """[(key, outcome, test)] of the facts with compound tests reduced: an `A and B` that came out false (an `A or B` that came
+    out true) with every operand but one decided the other way by what is known says that the remaining operand is false (true)"""
+    out = []
+    for k, v, expr, where in facts:
+        e, want = expr, v
+        if k[0] == "truth":
+            k0, pol = _atom(expr)
+            want = v if pol else (not v)        # outcome of `expr` itself
+            while isinstance(e, ast.UnaryOp) and isinstance(e.op, ast.Not):
+                e, want = e.operand, not want
+            if isinstance(e, ast.BoolOp) and (isinstance(e.op, ast.And) != bool(want)):
+                neutral = isinstance(e.op, ast.And)
+                rest = [x for x in e.values if _decide(x, tuple(known)) is not neutral]
+                if len(rest) == 1:
+                    out.extend((k2, v2, e2) for k2, v2, e2, _ in _implied(rest[0], want, where))
+                    continue
+        out.append((k, v, expr))
+    return out
+
+
+def _fresh_object(v):
+    """an expression that certainly is not None: the result of constructing something (`numpy.dtype(..)`, `records.Records(..)`,
+    `numpy.array(..)`: a call through a dotted library / class name), see also _is_notnone"""
+    return _is_notnone(v) or (isinstance(v, ast.Call) and isinstance(v.func, ast.Attribute)
+                              and (dotted_name(v.func) or "").split(".")[0] in ("numpy", "np", "records")
+                              and call_name(v) in ("dtype", "Records", "array", "zeros", "empty"))
+
+
+def _text_chunk_native(chk, repo, Rec_write, paths, ceff):
+    """the text writer of Records::Write formats every number by reading it from the row buffer as a value of the machine
+    (no byte swapping anywhere below Records::Write), and SFile's text compatibility check deliberately ignores byte order: so
+    for EVERY state a text handle can be in after Recfile.open -- freshly created ('w': no dtype yet) or reopened for appending
+    ('r+': dtype known) alike -- and on every path of Recfile.write, the array handed to Records::Write must have gone through the
+    package's native-byte-order conversion; otherwise an accepted chunk in the other byte order is stored as garbage and the
+    file is not the concatenation of the chunks.  A path that skips the conversion is excused only by a test on the chunk itself
+    or on byte order (then: no verdict), never by a test on the state of the handle."""
+    key = "esutil.recfile.Util.Recfile.write::text-chunk-native"
+    conv = _native_converters(repo)
+    premise = True      # nothing below Records::Write swaps bytes itself
+    if ceff is not None and "Records::Write" in ceff.cfun:
+        try:
+            for _, d in _c_reachable(ceff, ceff.cfun["Records::Write"]):
+                for c in cfront.calls_in(d):
+                    if re.search(r"swap|ntoh|hton", cfront.callee_name(c) or "", re.I):
+                        premise = None
+        except AnalysisError:
+            premise = None
+    Rec_open = repo.funcs.get("%s.%s.open" % (Rec_write.module.name, Rec_write.cls)) if Rec_write.cls else None
+    where = (Rec_write, Rec_write.node.lineno)
+    states, typed = _text_handle_states(repo, Rec_open, where) if Rec_open is not None else ([_St()], False)
+    chunk = Rec_write.params[1] if len(Rec_write.params) > 1 else "data"
+    direct = {fi.name for fi in repo.funcs.values()
+              if any(isinstance(x, ast.Call) and call_name(x) in _SWAP_PRIMS for x in ast.walk(fi.node))}
+    # helpers of the module / class that merely reach a converter are followed statement by statement (what they do to the array
+    # shows as the events inside them), so a call to one of them is not by itself evidence of a conversion
+    followed = {fi.name for fi in repo.funcs.values() if fi.module is Rec_write.module and fi.cls in (None, Rec_write.cls)} - direct
+    verdict, bad, nw, npaths, used = True, [], 0, 0, set()
+    if len(states) > 256:
+        states, verdict = states[:256], None        # not every state looked at: a pass would not be a pass
+    for s0 in states:
+        try:
+            wpaths = [st for k, _, st in _PX(repo, stop=direct, budget=40000).run(Rec_write, {}, st=_St(heap=dict(s0.heap), facts=s0.facts))
+                      if k == "return"]
+        except _TooBig:
+            verdict = None if verdict is not False else False
+            continue
+        npaths += len(wpaths)
+        for st in wpaths:
+            for w in _calls(st, "Write"):
+                nw += 1
+                x = w["args"][0] if w["args"] else None
+                if x is None:
+                    verdict = None if verdict is not False else False
+                    continue
+                xt = norm(x)
+                converted = None
+                for c in ast.walk(x):
+                    if isinstance(c, ast.Call) and (call_name(c) in conv or call_name(c) in _SWAP_PRIMS):
+                        converted = call_name(c)
+                for e in st.events[:w["nev"]]:
+                    if e["kind"] == "call" and e["name"] in conv and e["name"] not in followed and any(norm(a) == xt for a in e["args"]):
+                        converted = e["name"]       # converted in place by a converter that is taken as a whole
+                    if e["kind"] == "call" and e["name"] in _SWAP_PRIMS and e["recv"] is not None and norm(e["recv"]) == xt:
+                        converted = e["name"]
+                if converted:
+                    used.add(converted)
+                    continue
+                # the guards this path passed inside Recfile.write; those that hold for every handle in this state are dropped
+                guards, excused, unknown = [], False, False
+                for k, v, expr in _refined_facts(st.facts[len(s0.facts):w["nfacts"]], s0.facts):
+                    text = " ".join(map(str, k[1:]))
+                    pol = _atom(expr)[1] if isinstance(expr, ast.AST) else True
+                    shown = norm(expr) if isinstance(expr, ast.AST) else text
+                    guards.append("`%s` is %s" % (shown if len(shown) <= 90 else shown[:40] + " ... " + shown[-45:], v if pol else (not v)))
+                    if k[0] == "is" and "None" in k[1:] and v is False and isinstance(expr, ast.Compare) \
+                            and _fresh_object(expr.comparators[0] if _is_none(expr.left) else expr.left):
+                        continue        # `<constructed object> is None` is false for every handle in this state
+                    if _BYTE_ORDER_WORDS.search(text) or re.search(r"\b%s\b" % re.escape(chunk), text):
+                        excused = True
+                    elif "__unk" in text or "__ret" in text:
+                        unknown = True
+                    elif typed:
+                        pass            # a term over the state of the handle only (the chunk does not occur in it): it says
+                        #                 nothing about the byte order of the chunk
+                    elif re.fullmatch(r"self\.robj", " ".join(t for t in k[1:] if t != "None")):
+                        pass            # the handle is open
+                    else:
+                        unknown = True
+                if excused or unknown or premise is None:
+                    res = None
+                else:
+                    res = False
+                bad.append("line %s: Write(%s)%s" % (w["line"], xt[:50], (" on the path where [%s]" % "; ".join(guards)[:200]) if guards else " unconditionally"))
+                verdict = False if (res is False or verdict is False) else None
+    if not nw:
+        verdict = None
+    chk.ob("R03.7", key, verdict, Rec_write.where(),
+           "%sfor every state of a text handle after Recfile.open (%d state(s)%s) and every path of Recfile.write (%d), the array "
+           "handed to Records::Write has been converted to native byte order (%d Write call(s); converters seen: %s)"
+           % ("" if not bad else "text chunk NOT converted to native byte order: " + " | ".join(sorted(set(bad))[:2]) + " -- rule: ",
+              len(states), "" if typed else ", open() not enumerable: flag assumed", npaths, nw, sorted(used)))
